@@ -13,7 +13,7 @@ PROPS = ['Props/Properties_C02.v', 'Props/Properties_C02b.v']
 EXTRACT = '''From Coq Require Import Extraction ExtrOcamlBasic.
 Require Import Num Vec Tree MB Spatial C02_Model.
 Extraction Language OCaml.
-Extraction "c02run.ml" cmkTree out_resid out_idacc out_abi out_fd out_minv out_rnea_of_fd out_react_art out_react_fb mkCbx mkNode mkDyn.
+Extraction "c02run.ml" cmkTree out_resid out_idacc out_abi out_fd out_minv out_rnea_of_fd out_react_art out_react_fb out_equiv mkCbx mkNode mkDyn.
 '''
 INDEXED = ('IDACC', 'FDACC', 'RACC', 'REACT', 'REACTFB', 'ABI', 'PPLUS', 'Z', 'ZP', 'DMAT', 'DIMAT', 'GMAT')
 # tag -> relative tolerance (scale = max(1, largest |component| of the implementation's vector)).
@@ -23,7 +23,7 @@ TOL = {'RESID': 1e-9, 'IDACC': 1e-9, 'ABI': 1e-9,
        'FDUD': 1e-8, 'FDACC': 1e-8, 'RUD': 1e-8, 'RACC': 1e-8, 'MINV': 1e-8, 'MINVMAT': 1e-8,
        'Z': 1e-8, 'ZP': 1e-8, 'EPS': 1e-8, 'IDFD': 1e-8,
        'DMAT': 1e-9, 'DIMAT': 1e-8, 'GMAT': 1e-8, 'PPLUS': 1e-8,
-       'REACT': 1e-8, 'REACTFB': 1e-8}
+       'REACT': 1e-8, 'REACTFB': 1e-8, 'EQUIV': 1e-9}
 # z / z+ of RBNodeLoneParticle bodies are not comparable (that node type keeps its own, different temporaries)
 SKIP_IF_LONE = ('Z', 'ZP', 'PPLUS', 'DMAT', 'DIMAT', 'GMAT')
 
